@@ -1,5 +1,6 @@
 import OdmlModel.Model.Rdf
 import OdmlModel.Model.Query
+import OdmlModel.Model.QuerySpec
 import Driver.Util
 import Driver.Loop
 import Driver.RdfCodec
@@ -92,19 +93,40 @@ def handle (j : Json) : Except String Json := do
     let docs ← (← getArr j "docs").toList.mapM decDoc
     let pairs ← (← getArr j "pairs").toList.mapM decPair
     let g := exportRdf noSub docs
+    -- `findRows` (the function the reporting theorems are about) is evaluated once; the rows of a
+    -- combination it reports are taken from its answer (it reports `queryRows g (groupPairs c)` for
+    -- exactly the combinations with a hit), the combinations it omits are evaluated by `queryRows`.
+    let reported := findRows g pairs
+    let sameQ (a b : QParams) : Bool := a.doc == b.doc && a.sec == b.sec && a.prop == b.prop
+    let rowsOf (q : QParams) : Except QErr (List (Option Rdf.Term × Option Rdf.Term × Option Rdf.Term)) :=
+      match reported with
+      | .ok l => match l.find? (fun e => sameQ e.1 q) with
+        | some e => .ok e.2
+        | none => queryRows g q
+      | .error _ => queryRows g q
+    -- the two direct specifications are evaluated where the harness looks at them: inside the
+    -- hypotheses of `query_sound_complete` / `query_sound_complete_full` (`directEvalU = directEval`,
+    -- `directEvalU' = directEval'`: `Proofs/QueryFull.lean`)
+    let inside := wfDocsB docs && rdfReprB docs
+    let inside1 := inside && noRepoB docs
+    let inside2 := inside && repoOKB docs
     let executed := jarr ((subsets pairs).map fun c =>
       let q := groupPairs c
       jobj [("q", encQ q), ("safe", jbool (querySafeB q)),
-            ("rows", match queryRows g q with
+            ("rows", match rowsOf q with
               | .ok rows => jarr (rows.map encRow)
               | .error _ => jstr "parse-error"),
-            ("direct", jarr ((directEval docs q).map encRow))])
-    let found := match findRows g pairs with
+            ("direct", if inside1 && querySafeB q then jarr ((directEvalU docs q).map encRow) else Json.null),
+            -- the specification of `C20.query_sound_complete_full` / `match_search_reports_exact`:
+            -- `directEval'` of the combination, and whether it is inside `QueryFull`
+            ("full", jbool (queryFullB q)),
+            ("direct2", if inside2 && queryFullB q then jarr ((directEvalU' docs q).map encRow) else Json.null)])
+    let found := match reported with
       | .ok l => jarr (l.map fun e => jobj [("q", encQ e.1), ("rows", jarr (e.2.map encRow))])
       | .error _ => jstr "parse-error"
     pure (jobj [("all", executed), ("found", found),
                 ("wf", jbool (wfDocsB docs)), ("repr", jbool (rdfReprB docs)),
-                ("norepo", jbool (noRepoB docs))])
+                ("norepo", jbool (noRepoB docs)), ("repook", jbool (repoOKB docs))])
   | "bgp" =>
     let g ← (← getArr j "triples").toList.mapM decTriple
     let pats ← (← getArr j "pats").toList.mapM decPat
